@@ -472,3 +472,7 @@ impl Drop for ReverseDeltaBuilder {
         }
     }
 }
+
+#[cfg(kani)]
+#[path = "/verif/units/kani/rollback_mod.rs"]
+mod verif_kani;
